@@ -427,16 +427,21 @@ def swizzleSpec (guide : List Nat)
 /-- the permutation that exchanges ranks `k` and `k+1` -/
 def swapGuide (k : Nat) : List Nat := List.range k ++ [k + 1, k]
 
-/-- combination of the coordinates of consecutive ranks, lowest first (as the recursion of
-    `_mergeRanksHelper` does): `comb l c (…)` when `l+1` ranks were combined below -/
-def foldPt (comb : Nat → κ → κ → κ) : List κ → Option κ
-  | [] => none
-  | [c] => some c
-  | c :: c' :: rest => (foldPt comb (c' :: rest)).map (fun x => comb rest.length c x)
+/-- the top coordinate pair of a point combined -/
+def join2 (comb : κ → κ → κ) : List κ → List κ
+  | c1 :: c0 :: rest => comb c1 c0 :: rest
+  | p => p
+
+/-- image of a point when its first `l+2` coordinates are combined, lowest pair first (as the
+    recursion of `_mergeRanksHelper` does): `comb j c (…)` when `j+1` ranks were combined below -/
+def joinTop (comb : Nat → κ → κ → κ) : (l : Nat) → List κ → List κ
+  | 0, p => join2 (comb 0) p
+  | l + 1, c :: rest => join2 (comb (l + 1)) (c :: joinTop comb l rest)
+  | _ + 1, [] => []
 
 /-- image of a point when ranks `k … k+l+1` become one rank -/
 def joinPoint (comb : Nat → κ → κ → κ) (k l : Nat) (p : List κ) : Option (List κ) :=
-  (foldPt comb ((p.drop k).take (l + 2))).map (fun c => p.take k ++ c :: p.drop (k + l + 2))
+  if k + l + 2 ≤ p.length then some (p.take k ++ joinTop comb l (p.drop k)) else none
 
 /-- group equal points (the list is sorted on points): values in original order -/
 def groupPts : Content κ ν → List (List κ × List ν)
@@ -483,14 +488,15 @@ def flattenSpec
     some (isort (c.filterMap (fun pv => (joinPoint comb k l pv.1).map (fun q => (q, pv.2)))))
   else none
 
+/-- image of a point when its first (tuple) coordinate becomes `l+2` coordinates -/
+def splitTop (hd tl : κ → κ) : (l : Nat) → List κ → List κ
+  | _, [] => []
+  | 0, c :: rest => hd c :: tl c :: rest
+  | l + 1, c :: rest => hd c :: splitTop hd tl l (tl c :: rest)
+
 /-- image of a point when rank `k` (tuple coordinate) becomes ranks `k … k+l+1` -/
-def splitPoint (hd tl : κ → κ) (k : Nat) : (l : Nat) → List κ → List κ
-  | 0, p => match p.drop k with
-    | c :: rest => p.take k ++ hd c :: tl c :: rest
-    | [] => p
-  | l + 1, p => match p.drop k with
-    | c :: rest => splitPoint hd tl (k + 1) l (p.take k ++ hd c :: tl c :: rest)
-    | [] => p
+def splitPoint (hd tl : κ → κ) (k l : Nat) (p : List κ) : List κ :=
+  p.take k ++ splitTop hd tl l (p.drop k)
 
 /-- **unflatten**: every point moves to its image (order is preserved) -/
 def unflattenSpec (hd tl : κ → κ) (k l : Nat) (c : Content κ ν) : Content κ ν :=
